@@ -1,7 +1,7 @@
 /-
 Specification side of C02/C03: what the escaping must achieve, stated without the tables.
 * `escTextChar` / `escAttrChar`: the per-character maps the property describes
-* `decodeRefs`: an HTML character-reference decoder (the five named references the library can emit and
+* `decodeCharRefs`: an HTML character-reference decoder (the five named references the library can emit and
   decimal `&#N;`), used to state "decodes to exactly the original characters"
 * `ampsOk`: every `&` in a string begins one of a given set of complete references ("cannot forge a reference")
 -/
@@ -26,40 +26,40 @@ def escAttrChar (c : Char) : Str :=
   else [c]
 
 /-- named references known to the decoder (without the leading `&`) -/
-def namedRefs : List (Str × Char) :=
+def crNamedRefs : List (Str × Char) :=
   [(['a', 'm', 'p', ';'], '&'), (['l', 't', ';'], '<'), (['g', 't', ';'], '>'),
    (['q', 'u', 'o', 't', ';'], '"'), (['a', 'p', 'o', 's', ';'], '\'')]
 
-def matchNamed (rest : Str) : Option (Char × Nat) :=
-  namedRefs.findSome? fun nc => if nc.1.isPrefixOf rest then some (nc.2, nc.1.length) else none
+def crMatchNamed (rest : Str) : Option (Char × Nat) :=
+  crNamedRefs.findSome? fun nc => if nc.1.isPrefixOf rest then some (nc.2, nc.1.length) else none
 
-def digitsVal (ds : Str) : Nat := ds.foldl (fun a c => 10 * a + (c.toNat - '0'.toNat)) 0
+def crDigitsVal (ds : Str) : Nat := ds.foldl (fun a c => 10 * a + (c.toNat - '0'.toNat)) 0
 
 /-- `#` digits `;` -/
-def matchDecimal : Str → Option (Char × Nat)
+def crMatchDecimal : Str → Option (Char × Nat)
   | '#' :: r =>
     let ds := r.takeWhile Char.isDigit
     if ds.isEmpty then none
     else if (r.drop ds.length).head? = some ';' then
-      let n := digitsVal ds
+      let n := crDigitsVal ds
       if n < 0x110000 then some (Char.ofNat n, ds.length + 2) else none
     else none
   | _ => none
 
-def matchRef (rest : Str) : Option (Char × Nat) :=
-  match matchNamed rest with
+def crMatchRef (rest : Str) : Option (Char × Nat) :=
+  match crMatchNamed rest with
   | some r => some r
-  | none => matchDecimal rest
+  | none => crMatchDecimal rest
 
 /-- decode character references; an `&` that starts no known reference is literal -/
-def decodeRefs : Str → Str
+def decodeCharRefs : Str → Str
   | [] => []
   | c :: cs =>
     if c = '&' then
-      match matchRef cs with
-      | some (ch, n) => ch :: decodeRefs (cs.drop n)
-      | none => '&' :: decodeRefs cs
-    else c :: decodeRefs cs
+      match crMatchRef cs with
+      | some (ch, n) => ch :: decodeCharRefs (cs.drop n)
+      | none => '&' :: decodeCharRefs cs
+    else c :: decodeCharRefs cs
 termination_by s => s.length
 decreasing_by
   all_goals simp only [List.length_cons, List.length_drop]
